@@ -9,6 +9,7 @@ import (
 	"flag"
 	"fmt"
 	"os"
+	"time"
 
 	"verifsim/scen"
 	"verifsim/simrt"
@@ -23,6 +24,7 @@ func main() {
 	stride := flag.Int("stride", 1, "run index stride")
 	replay := flag.String("replay", "", "params JSON file to replay")
 	verbose := flag.Bool("v", false, "dump ops")
+	secs := flag.Float64("secs", 0, "wall-clock budget (0 = none)")
 	flag.Parse()
 	out := bufio.NewWriter(os.Stdout)
 	defer out.Flush()
@@ -44,7 +46,11 @@ func main() {
 		enc.Encode(res)
 		return
 	}
+	start := time.Now()
 	for i := 0; i < *n; i++ {
+		if *secs > 0 && time.Since(start).Seconds() > *secs {
+			break
+		}
 		idx := *from + i**stride
 		p := scen.Params{Prop: *prop, Scenario: *sc, Seed: simrt.Mix(*seed, uint64(idx))}
 		if *verbose {
